@@ -9,7 +9,7 @@ use re::util::buf::inner::Inner;
 use re::util::buf::{Buf2, MutSlice2, Slice2};
 use re::util::rect::Rect;
 use std::collections::{HashMap, VecDeque};
-use std::ops::{Deref, DerefMut};
+use std::ops::{Bound, Deref, DerefMut};
 use vlib::*;
 
 #[derive(Clone, Copy, Debug, PartialEq, Eq, Hash)]
@@ -48,7 +48,7 @@ impl Root {
 
 /// Spelling of a rectangle handed to slice()/slice_mut().
 #[derive(Clone, Copy, Debug, PartialEq, Eq, Hash)]
-enum Form { Ranges, Inclusive, To, From, Full, VecRange, RangeFull, RectLit }
+enum Form { Ranges, Inclusive, To, From, Full, VecRange, RangeFull, RectLit, BoundsExIn, BoundsExEx, BoundsInUn, BoundsUnEx, ToInclusive, MixedFromTo, MixedToFrom }
 
 #[derive(Clone, Copy, Debug, PartialEq, Eq, Hash)]
 enum Step {
@@ -65,6 +65,13 @@ fn make_rect(l: u32, t: u32, r: u32, b: u32, form: Form) -> Rect<u32> {
         Form::Full => (.., ..).into(),
         Form::VecRange => (vec2(l, t)..vec2(r, b)).into(),
         Form::RangeFull => (..).into(),
+        Form::BoundsExIn => ((Bound::Excluded(l - 1), Bound::Included(r.wrapping_sub(1))), (Bound::Excluded(t - 1), Bound::Included(b.wrapping_sub(1)))).into(),
+        Form::BoundsExEx => ((Bound::Excluded(l - 1), Bound::Excluded(r)), (Bound::Excluded(t - 1), Bound::Excluded(b))).into(),
+        Form::BoundsInUn => ((Bound::Included(l), Bound::Unbounded), (Bound::Included(t), Bound::Unbounded)).into(),
+        Form::BoundsUnEx => ((Bound::Unbounded, Bound::Excluded(r)), (Bound::Unbounded, Bound::Excluded(b))).into(),
+        Form::ToInclusive => (..=r - 1, ..=b - 1).into(),
+        Form::MixedFromTo => (l.., ..b).into(),
+        Form::MixedToFrom => (..r, t..).into(),
         Form::RectLit => Rect { left: Some(l), top: Some(t), right: Some(r), bottom: Some(b) },
     }
 }
@@ -75,6 +82,11 @@ fn forms_for(l: u32, t: u32, r: u32, b: u32, w: u32, h: u32) -> Vec<Form> {
     if l == 0 && t == 0 { f.push(Form::To); }
     if r == w && b == h { f.push(Form::From); }
     if l == 0 && t == 0 && r == w && b == h { f.push(Form::Full); f.push(Form::RangeFull); }
+    if l >= 1 && t >= 1 { f.push(Form::BoundsExEx); if r >= 1 && b >= 1 { f.push(Form::BoundsExIn); } }
+    if r == w && b == h { f.push(Form::BoundsInUn); }
+    if l == 0 && t == 0 { f.push(Form::BoundsUnEx); if r >= 1 && b >= 1 { f.push(Form::ToInclusive); } }
+    if r == w && t == 0 { f.push(Form::MixedFromTo); }
+    if l == 0 && b == h { f.push(Form::MixedToFrom); }
     f
 }
 
